@@ -703,3 +703,61 @@ func lemmaFrameAboveCapRoundTrips() bool { return specF7RoundTrips() }
 //@                    zzRecv[*epoch]("hsms.(*epoch).teardown") == zzRet[*epoch]("atomic.Load:cur")
 //@ ensures [order]    zzCalls("hsms.(*connection).startConnectLoop") == 1 ==> zzSeq("hsms.(*connection).startConnectLoop") < zzSeq("hsms.(*epoch).teardown")
 //@ ensures [farewell] zzCalls("hsms.(*connection).writeFarewellSeparate") == 1 ==> prev == SelectedState && next == NotConnectedState
+
+// ---- C10 (the sentences a per-call contract can state): Open on an open connection has no side effects; every
+// goroutine Open starts itself is registered on supWg with a matching Add; a failed Open and Close join supWg (and
+// Close joins the reconnect loops) before returning. Progress of those joins (that they return) is NOT stated.
+
+//@ func (*supervisor).requestClose
+//@ operation
+
+//@ func (*supervisor).stop
+//@ operation
+
+//@ func (*epoch).wait
+//@ operation
+
+//@ func (*epoch).spawn
+//@ operation
+
+//@ func newEpoch
+//@ operation
+
+//@ func newSupervisor
+//@ operation
+
+//@ func (*connection).waitSelected
+//@ operation
+
+//@ func (*connection).Open
+//@ nosafety nil-deref nil-iface
+//@ noframe
+//@ modifies nothing
+//@ requires c != nil
+//@ ensures [already]  zzRet[*supervisor]("atomic.Load:sup") != nil && zzCalls("atomic.Load:shutdown") == 1 && !zzRet[bool]("atomic.Load:shutdown") ==>
+//@                    result == ErrAlreadyOpen && zzCalls("go") == 0 && zzCalls("atomic.Store:cur") == 0 && zzCalls("atomic.Store:sup") == 0 &&
+//@                    zzCalls("atomic.Store:shutdown") == 0 && zzCalls("atomic.Add:reconnectGen") == 0 && zzCalls("hsms.(transport).Start") == 0 &&
+//@                    zzCalls("hsms.newEpoch") == 0 && zzCalls("sync.(*WaitGroup).Add") == 0 && zzCalls("hsms.(transport).ArmStart") == 0
+//@ ensures [oneload]  zzCalls("atomic.Load:sup") <= 1 && zzCalls("atomic.Load:shutdown") <= 1
+//@ ensures [joined]   zzCalls("go.nodone") == 0 && zzCalls("go") == zzCalls("go.done:c.supWg")
+//@ ensures [balance]  zzCalls("go") > 0 ==> zzCalls("sync.(*WaitGroup).Add") == 1 && zzArg[int]("sync.(*WaitGroup).Add", 0) == zzCalls("go.done:c.supWg")
+//@ ensures [rollback] zzCalls("hsms.(transport).Start") == 1 && zzRet[error]("hsms.(transport).Start") != nil && zzCalls("hsms.(*connection).startConnectLoop") == 0 ==>
+//@                    zzCalls("hsms.(*supervisor).requestClose") == 1 && zzCalls("hsms.(*supervisor).stop") == 1 && zzCalls("sync.(*WaitGroup).Wait") >= 2 &&
+//@                    zzArg[bool]("atomic.Store:shutdown", 0)
+//@ cover [opened]   result == nil && zzCalls("go") == 2
+//@ cover [already]  result == ErrAlreadyOpen
+//@ cover [failed]   zzCalls("hsms.(*supervisor).requestClose") == 1
+
+//@ func (*connection).Close
+//@ nosafety nil-deref nil-iface
+//@ noframe
+//@ modifies nothing
+//@ requires c != nil
+//@ ensures [never]  zzRet[*epoch]("atomic.Load:cur") == nil && zzCalls("atomic.Load:cur") == 1 ==> result == ErrNotOpen && zzCalls("atomic.Store:shutdown") == 0
+//@ ensures [joins]  zzCalls("atomic.Store:shutdown") == 1 ==> zzArg[bool]("atomic.Store:shutdown", 0) && zzCalls("hsms.(*supervisor).requestClose") == 1 &&
+//@                  zzCalls("hsms.(*epoch).wait") == 1 && zzCalls("hsms.(*supervisor).stop") == 1 && zzCalls("sync.(*WaitGroup).Wait") == 2 &&
+//@                  zzSeq("hsms.(*supervisor).requestClose") < zzSeq("hsms.(*epoch).wait") && zzSeq("hsms.(*epoch).wait") < zzSeq("hsms.(*supervisor).stop") &&
+//@                  zzSeq("hsms.(*supervisor).stop") < zzSeq("sync.(*WaitGroup).Wait")
+//@ ensures [again]  zzCalls("atomic.Store:shutdown") == 0 ==> zzCalls("hsms.(*supervisor).requestClose") == 0 && zzCalls("hsms.(*supervisor).stop") == 0
+//@ cover [closes]  zzCalls("atomic.Store:shutdown") == 1
+//@ cover [second]  zzCalls("atomic.Store:shutdown") == 0 && result != ErrNotOpen
